@@ -567,6 +567,47 @@ impl World {
         self.emit(rec, op, format!("{} {}", out, int));
     }
 
+    /// `enqueue_responses` for the held requests `ks` (indices into `held`, distinct), each with a small body.
+    pub fn respond_many(&mut self, rec: &mut Rec, mut ks: Vec<usize>, bodies: Vec<Vec<u8>>) {
+        if self.server.is_none() {
+            return;
+        }
+        ks.sort_unstable();
+        ks.dedup();
+        let mut items = vec![];
+        let mut resps = vec![];
+        // remove from the back so that indices stay valid
+        let mut taken: Vec<Held> = vec![];
+        for k in ks.iter().rev() {
+            if *k < self.held.len() {
+                taken.push(self.held.remove(*k));
+            }
+        }
+        taken.reverse();
+        for (h, b) in taken.into_iter().zip(bodies.into_iter()) {
+            let spec = RespSpec { v11: true, code: 200, ops: vec![crate::conn::BOp::Body(b.clone())] };
+            let mut slot = Some(spec.build());
+            resps.push(h.req.process(|_| slot.take().unwrap()));
+            items.push(format!("{},1.1,200,{}", h.fd, hx(&b)));
+        }
+        let server = self.server.as_mut().unwrap();
+        let r = catch_unwind(AssertUnwindSafe(|| server.enqueue_responses(resps)));
+        let out = match r {
+            Err(_) => "PANIC".to_string(),
+            Ok(Ok(())) => "ok".to_string(),
+            Ok(Err(ServerError::Underflow)) => {
+                self.respond_errors.push("Underflow".into());
+                "underflow".to_string()
+            }
+            Ok(Err(e)) => {
+                self.respond_errors.push(format!("{:?}", e));
+                format!("err({:?})", e)
+            }
+        };
+        let int = self.interest_text();
+        self.emit(rec, format!("srv respondmany {}", items.join(" ")), format!("{} {}", out, int));
+    }
+
     pub fn flush(&mut self, rec: &mut Rec) {
         if self.server.is_none() {
             return;
